@@ -49,6 +49,8 @@ func main() {
 		cmdMtls(*seed, *n, *out, *replay, *tier)
 	case "nopanic":
 		cmdNoPanic(*seed, *n, *out, *replay, *tier)
+	case "mercobserve":
+		cmdMercObserve(*seed, *n, *out, *replay, *tier)
 	case "observe":
 		cmdObserve(*seed, *n, *out, *replay, *tier)
 	case "reportsflow":
